@@ -92,7 +92,7 @@ func main() {
 		"first-time installation of a plugin whose version is not a semantic version is not judged (nothing is replaced)",
 		"expected mode of an installed file = source mode & 0755; a single non-executable candidate gets its user-execute bit set first (documented behaviour)"}
 	ctx := context.Background()
-	n := r.N(1500, 12000)
+	n := r.N(1500, 40000)
 	lib.Parallel(n, 8, func(seq int) {
 		// ETXTBSY is an artefact of forking from a multi-threaded process while another goroutine has an executable open
 		// for writing (Go issue 22315), not behaviour of the library: such an attempt is discarded and the sequence re-run.
